@@ -171,16 +171,17 @@ PROPS = {
     ),
     "C04": dict(
         title="Writer and reader agree on record positions (random access)",
-        lean_modules=["Gowarc.Props.C04"],
+        lean_modules=["Gowarc.Props.C04", "Gowarc.Props.C04junk"],
+        audit_namespaces=["Gowarc.Props.C04"],
         n_quick=1500, n_thorough=12000,
-        required_theorems=["C04_inv", "C04_tracked_size", "C04_offset", "C04_offset_stable", "C04_sequential", "step_grows", "write_inv", "close_inv"],
+        required_theorems=["C04_inv", "C04_tracked_size", "C04_offset", "C04_offset_stable", "C04_sequential", "C04_junk", "core_frame", "unmarshal_eq_core", "step_grows", "write_inv", "close_inv"],
         model_assumptions=["member bytes (the marshaler's and the compressor's output) are data: the harness measures each member's length on disk and hands it to the model; everything the writer decides is modelled",
                            "C04_sequential is stated for any self-delimiting codec (dec (enc x ++ rest) = some (x, rest)); that gowarc's marshal/gzip and unmarshal form such a codec is checked by the read-back oracle (independent scanner, fresh reader at every offset, sequential reader under three source behaviours), not proved",
                            "one worker (deterministic); n workers are C09; segmentation (continuation records) is C10",
                            "the float multiplication by the expected compression ratio is the parameter `scale`; the harness uses ratios that are exact in binary"],
         design_ref="DESIGN.md section 5, C04",
         level_text="State-machine model of singleWarcFileWriter (fit test, file creation, warcinfo, append, size tracking, close/rename/callback) with a reachable-state invariant: the tracked size equals the open file's length; theorems for every operation sequence: the reported offset is where "
-                   "the record's bytes start and they stay there under all later operations, BytesWritten is the serialized length, sequential decoding visits the members at the prefix-sum offsets and ends at the file length. Correspondence on Write/Rotate/Close sequences through the public API "
+                   "the record's bytes start and they stay there under all later operations, BytesWritten is the serialized length, sequential decoding visits the members at the prefix-sum offsets and ends at the file length; and the junk law for the full Unmarshal model and EVERY stream: reading again from a reported offset returns the same record (C04_junk, via a frame lemma over the validation monad). Correspondence on Write/Rotate/Close sequences through the public API "
                    "with files read back by an independent scanner and by gowarc's reader",
         level_note="Trusted: Lean kernel, correspondence harness and its independent scanner. Modelled by hand: warcfile.go singleWarcFileWriter. Reader-side offset arithmetic (countingreader, bufio) is covered by the oracle only.",
     ),
